@@ -626,8 +626,8 @@ void coap_handle_nack(coap_session_t *session,
  *  ACK_TIMEOUT * ((2 ** (MAX_RETRANSMIT)) - 1) * ACK_RANDOM_FACTOR
  */
 #define COAP_MAX_TRANSMIT_SPAN(s) \
-  (((s)->ack_timeout.integer_part * 1000 + (s)->ack_timeout.fractional_part) * \
-   ((1 << ((s)->max_retransmit)) -1) * \
+  ((uint64_t)((s)->ack_timeout.integer_part * 1000 + (s)->ack_timeout.fractional_part) * \
+   (((uint64_t)1 << ((s)->max_retransmit)) -1) * \
    ((s)->ack_random_factor.integer_part * 1000 + \
     (s)->ack_random_factor.fractional_part) \
    / 1000000)
@@ -639,8 +639,8 @@ void coap_handle_nack(coap_session_t *session,
  *  ACK_TIMEOUT * ((2 ** (MAX_RETRANSMIT + 1)) - 1) * ACK_RANDOM_FACTOR
  */
 #define COAP_MAX_TRANSMIT_WAIT(s) \
-  (((s)->ack_timeout.integer_part * 1000 + (s)->ack_timeout.fractional_part) * \
-   ((1 << ((s)->max_retransmit + 1)) -1) * \
+  ((uint64_t)((s)->ack_timeout.integer_part * 1000 + (s)->ack_timeout.fractional_part) * \
+   (((uint64_t)1 << ((s)->max_retransmit + 1)) -1) * \
    ((s)->ack_random_factor.integer_part * 1000 + \
     (s)->ack_random_factor.fractional_part) \
    / 1000000)
